@@ -617,7 +617,8 @@ func (w *vWorld) movePod(p *vPod, node int, daemon bool) {
 }
 
 // viaAffinity makes a pod select its group through required node affinity: one term whose first
-// requirement is about something else (a zone) and whose second names the group's label.
+// requirement is about something else (a zone), whose second is a non-In requirement on the group's
+// key and whose third names the group's label value with In.
 func (w *vWorld) viaAffinity(p *vPod, on bool) {
 	if !on {
 		return
@@ -628,6 +629,7 @@ func (w *vWorld) viaAffinity(p *vPod, on bool) {
 	obj.Spec.Affinity = &v1.Affinity{NodeAffinity: &v1.NodeAffinity{RequiredDuringSchedulingIgnoredDuringExecution: &v1.NodeSelector{
 		NodeSelectorTerms: []v1.NodeSelectorTerm{{MatchExpressions: []v1.NodeSelectorRequirement{
 			{Key: "topology.kubernetes.io/zone", Operator: v1.NodeSelectorOpIn, Values: []string{"az"}},
+			{Key: o.LabelKey, Operator: v1.NodeSelectorOpExists},
 			{Key: o.LabelKey, Operator: v1.NodeSelectorOpIn, Values: []string{o.LabelValue}},
 		}}}}}}
 	p.obj = &obj
